@@ -26,21 +26,24 @@ LEVEL_NOTE = "Bounds: path pool and variants as in evidence.bounds, N files. Tru
 PATHS = ["a.py", "b.js", "d/a.py", "d/b.js", "d/e/a.py", "d/e/f/a.java", "e/a.py", "d2/e/a.py",
          "-l/a.py", "+s/e/a.py", "0/a.py", "~t/a.py",
          # two DIFFERENT paths that are equal after Unicode normalisation (NFC vs NFD spelling of the same name)
-         "u/caf\u00e9.py", "u/cafe\u0301.py"]
+         "u/caf\u00e9.py", "u/cafe\u0301.py",
+         # folder names ENDING in a dot (only a leading dot hides a folder) and a C / C++ / header mix
+         "misc./a.py", "d/v2./b.js", "c/x.c", "c/y.cpp", "c/z.h"]
 # pairwise distinct counts and sums per category; lengths ON the category bounds (15, 30, 60) included
 VARIANTS = [[], [15], [16, 30, 31], [60, 61, 62, 5, 40, 45, 30]]
-LANG = {"py": "Python", "js": "JavaScript", "java": "Java"}
+LANG = {"py": "Python", "js": "JavaScript", "java": "Java", "c": "C", "cpp": "C++", "h": "C"}
 
 
 def lang_of(path):
     return LANG[path.rsplit(".", 1)[1]]
 
 
-def reference(files):
-    """files: list of (path, lengths) -> expected observable"""
+def reference(files, lang_map=None):
+    """files: list of (path, lengths) -> expected observable. lang_map: the language each entry ended up with (a codebase may
+    relabel entries; what must hold is that every language's totals describe the entries carrying that language)"""
     totals = {}
     for p, ls in files:
-        t = totals.setdefault(lang_of(p), [0, 0, 0, 0, 0])
+        t = totals.setdefault((lang_map or {}).get(p) or lang_of(p), [0, 0, 0, 0, 0])
         t[0] += 1
         t[1] += sum(ls)
         t[2] += len(ls)
@@ -95,7 +98,7 @@ def observe(files):
         if len(names) != len(set(names)):
             out.append(("tree-duplicate-entry", {"view": "tree"}, f"{key}: {names}"))
         obs_tree[key] = (sorted(names), list(folder.profile))
-    ref = reference(files)
+    ref = reference(files, {p: e.language for p, e in cb.files.items()})
     if obs_totals != ref["totals"]:
         out.append(("language-totals-wrong", {"view": "totals"}, f"{obs_totals} != {ref['totals']}"))
     if obs_tree != ref["tree"]:
@@ -176,7 +179,7 @@ def run(ctx: core.Ctx):
     for n in range(0, N + 1):
         for paths in itertools.combinations(PATHS, n):
             # 4 files: two variants per file (otherwise 495 x 256 x 24 histories)
-            vr = range(len(VARIANTS)) if n <= 2 else ((0, 2, 3) if n == 3 else (1, 3))
+            vr = range(len(VARIANTS)) if n <= 2 else ((2, 3) if n == 3 else (2,))
             for variants in itertools.product(vr, repeat=n):
                 combos.append((paths, variants))
     step = max(1, len(combos) // (ctx.workers * 4) + 1)
